@@ -16,7 +16,7 @@ Output: coverage/spec_vs_icu.json and a summary on stdout.
 import os, re, subprocess, sys, json, unicodedata
 
 ROOT = os.path.dirname(os.path.dirname(os.path.abspath(__file__)))
-DRIVER = os.path.join(ROOT, "lean", ".lake", "build", "bin", "ubidi-driver")
+DRIVER = os.environ.get("VERIF_DRIVER") or os.path.join(ROOT, "lean", ".lake", "build", "bin", "ubidi-driver")
 HARNESS = os.path.join(ROOT, "harness", "target", "release", "ubidi-harness")
 N = int(sys.argv[1]) if len(sys.argv) > 1 else 20000
 SEED = int(sys.argv[2]) if len(sys.argv) > 2 else 1
@@ -75,7 +75,11 @@ def main():
         kept = [cl[k] for k in keep]
         cat = "other"
         n_open = sum(1 for c in cps if unicodedata.category(chr(c)) == "Ps")
-        if n_open > 63:
+        if any(unicodedata.category(chr(c)) == "Cn" for c in cps):
+            # DerivedBidiClass gives unassigned default-ignorable code points and noncharacters BN (ICU follows);
+            # the crate documents L for every code point without an entry outside the listed blocks (property C14)
+            cat = "unassigned code point (UCD default BN for default-ignorables / noncharacters, crate documents L)"
+        elif n_open > 63:
             cat = "icu: no 63-entry limit of the bracket stack (BD16)"
         elif any(c in ANGLE for c in cps):
             cat = "icu: U+2329/U+3008 bracket stack"
